@@ -93,4 +93,13 @@ Definition C05_prop (c : C05_case) : bool :=
   end.
 
 (* cases without anything to revert (the history produced no version) are not counted *)
-Definition C05_pre (c : C05_case) : bool := negb (c5_tab c =? 9)%nat.
+(* ... nor are cases whose live tables violate the schema's foreign keys before the revert (SQLite does not
+   enforce them: `tag.article = a; session.delete(a)` in one transaction leaves a tag pointing at a missing
+   article, a state a database enforcing the declared constraints rejects) *)
+Definition has_key (t : ltab) (k : Z) : bool := match lget t k with Some _ => true | None => false end.
+Definition ref_ok (L : rlive) : bool :=
+  forallb (fun p => match snd p with
+                    | [_; Some fk] => has_key (rl_art L) fk
+                    | _ => true end) (rl_tag L) &&
+  forallb (fun p => has_key (rl_art L) (fst p) && has_key (rl_lab L) (snd p)) (rl_lnk L).
+Definition C05_pre (c : C05_case) : bool := negb (c5_tab c =? 9)%nat && ref_ok (c5_before c).
